@@ -197,6 +197,25 @@ def r2_guards(ck, w):
     ck.record('C16.R2', 'read_from_cs:extended-k-guard', deps_ok, 'an escaping conditional depends on both F::S and cs.degree() (extended domain bound)',
               'read_from_cs checks k <= S only: EvaluationDomain::new asserts extended_k <= S, which k <= S does not imply '
               '(a key with k close to S reaches the assert)', hirq.fn_loc(f))
+    # the guard must compute the extended k exactly as EvaluationDomain::new (which asserts it) does: same rounding direction of the logarithm
+    from ..engines import rounding
+    dom = w.fn('midnight_proofs::poly::domain::EvaluationDomain::new')
+    forms = {}
+    for who, fn_ in (('read_from_cs', f), ('EvaluationDomain::new', dom)):
+        cands = [(i, nm) for i, nm, _ in rounding.compared_with(fn_, '::S')]
+        best = ('unknown', 'no local is compared with F::S')
+        for i, nm in cands:
+            fm = rounding.log_form(fn_, i)
+            if fm[0] != 'unknown':
+                best = (fm[0], f'`{nm}`: {fm[1]}')
+                break
+        forms[who] = best
+    a, b = forms['read_from_cs'], forms['EvaluationDomain::new']
+    ck.record('C16.R2', 'read_from_cs:extended-k-rounding', a[0].startswith('ceil') and b[0].startswith('ceil'),
+              f'guard and asserted computation both round the logarithm up ({a[1]} / {b[1]})',
+              f'VerifyingKey::read_from_cs bounds the extended domain with a {a[0]} computation ({a[1]}) while EvaluationDomain::new asserts a {b[0]} one ({b[1]}): '
+              f'the smallest extended_k with 2^extended_k >= n*(degree-1) is a CEILING; a floor (or unrecognised) form lets a k through that the assert rejects '
+              f'whenever degree-1 is not a power of two, i.e. decoding panics', hirq.fn_loc(f))
     # (b)
     g = w.fn('midnight_zk_stdlib::ZkStdLibArch::read')
     okb = False
